@@ -322,30 +322,53 @@ func main() {
 		exit(2)
 	}
 
-	// 4. confirm failures by running their units a second time
+	// known findings (read-only)
+	var findings []finding
+	if b, err := os.ReadFile(filepath.Join(verifDir, "known_findings.json")); err == nil {
+		var kf struct {
+			Findings []finding `json:"findings"`
+		}
+		if err := json.Unmarshal(b, &kf); err != nil {
+			die(2, "known_findings.json: %v", err)
+		}
+		findings = kf.Findings
+	}
+	attributed := func(f mc.Failure) int {
+		for i, k := range findings {
+			if k.matches(id, f) {
+				return i
+			}
+		}
+		return -1
+	}
+	// 4. confirm failures that no open finding accounts for by running their units a second time
 	confirmed := []mc.Failure{}
 	var unconfirmed []string
 	if len(total.Failures) > 0 {
 		unitSet := map[string]bool{}
 		for _, f := range total.Failures {
-			unitSet[f.Unit] = true
+			if attributed(f) < 0 {
+				unitSet[f.Unit] = true
+			}
 		}
 		var names []string
 		for n := range unitSet {
 			names = append(names, n)
 		}
 		sort.Strings(names)
-		again, err := runUnits(names, "confirm")
-		if err != nil {
-			fmt.Fprintln(os.Stderr, err)
-			exit(2)
-		}
 		seen := map[string]bool{}
-		for _, f := range again.Failures {
-			seen[f.Sig()+"|"+f.Got] = true
+		if len(names) > 0 {
+			again, err := runUnits(names, "confirm")
+			if err != nil {
+				fmt.Fprintln(os.Stderr, err)
+				exit(2)
+			}
+			for _, f := range again.Failures {
+				seen[f.Sig()+"|"+f.Got] = true
+			}
 		}
 		for _, f := range total.Failures {
-			if seen[f.Sig()+"|"+f.Got] {
+			if attributed(f) >= 0 || seen[f.Sig()+"|"+f.Got] {
 				confirmed = append(confirmed, f)
 			} else {
 				unconfirmed = append(unconfirmed, f.Sig())
@@ -401,27 +424,11 @@ func main() {
 		}
 	}
 
-	// 5. classify against the known-findings file (read-only)
-	var findings []finding
-	if b, err := os.ReadFile(filepath.Join(verifDir, "known_findings.json")); err == nil {
-		var kf struct {
-			Findings []finding `json:"findings"`
-		}
-		if err := json.Unmarshal(b, &kf); err != nil {
-			die(2, "known_findings.json: %v", err)
-		}
-		findings = kf.Findings
-	}
+	// 5. classify against the known-findings file
 	knownSeen := map[int]int{}
 	var fresh []mc.Failure
 	for _, f := range confirmed {
-		hit := -1
-		for i, k := range findings {
-			if k.matches(id, f) {
-				hit = i
-				break
-			}
-		}
+		hit := attributed(f)
 		if hit >= 0 {
 			knownSeen[hit]++
 		} else {
